@@ -120,4 +120,23 @@ def cubeTris : List Nat :=
 def cubeUnweldedVerts : Nat := 24
 def cubeUnweldedTris : List Nat := (List.range 6).flatMap fun q => quadTris.map (· + 4 * q)
 
+/-! ### extrude.Shape / extrude.ClosedShape (extrude/shape.go:11-90): `pathLen` rings of `sides` vertices -/
+
+def extrudeShapeVerts (pathLen sides : Nat) : Nat := pathLen * sides
+
+/-- the ring joining `bottom` and `top` -/
+def extrudeRing (bottom top sides : Nat) : List Nat :=
+  (List.range sides).flatMap fun sideIndex =>
+    let topRight := top + sideIndex
+    let bottomRight := bottom + sideIndex
+    let topLeft := if sideIndex = 0 then top + sides - 1 else topRight - 1
+    let bottomLeft := if sideIndex = 0 then bottom + sides - 1 else bottomRight - 1
+    [bottomLeft, topLeft, topRight, bottomLeft, topRight, bottomRight]
+
+def extrudeShapeTris (pathLen sides : Nat) (close : Bool) : List Nat :=
+  (List.range pathLen).flatMap fun pathIndex =>
+    if pathIndex = pathLen - 1 then
+      (if close then extrudeRing (pathIndex * sides) 0 sides else [])
+    else extrudeRing (pathIndex * sides) ((pathIndex + 1) * sides) sides
+
 end PolyVerif.Prim
